@@ -15,7 +15,7 @@ pub fn entry() -> crate::Entry {
 pub const ATTRS: [(&str, usize); 20] = [
     ("font-name", 3), ("font-size", 3), ("bold", 2), ("italic", 1), ("strike", 1), ("underline", 2), ("font-color", 9), ("fill", 6),
     ("border-left", 5), ("border-right", 3), ("border-top", 3), ("border-bottom", 3), ("border-diagonal", 3),
-    ("h-align", 2), ("v-align", 2), ("wrap", 1), ("rotation", 2), ("numfmt", 6), ("locked", 2), ("hidden", 1),
+    ("h-align", 2), ("v-align", 2), ("wrap", 1), ("rotation", 5), ("numfmt", 6), ("locked", 2), ("hidden", 1),
 ];
 
 fn set_border(b: &mut Border, k: usize) {
@@ -140,7 +140,7 @@ pub fn apply_var(s: &mut Style, attr: usize, k: usize) {
         13 => s.get_alignment_mut().set_horizontal([HorizontalAlignmentValues::Left, HorizontalAlignmentValues::Center][k].clone()),
         14 => s.get_alignment_mut().set_vertical([VerticalAlignmentValues::Top, VerticalAlignmentValues::Center][k].clone()),
         15 => s.get_alignment_mut().set_wrap_text(true),
-        16 => s.get_alignment_mut().set_text_rotation([1, 45][k]),
+        16 => s.get_alignment_mut().set_text_rotation([1, 45, 90, 180, 255][k]),
         17 => {
             s.get_numbering_format_mut().set_format_code(["0.00", "0.000", "#,##0", "yyyy-mm-dd", "0.0\"x\"", "0.0\"y\""][k]);
         }
@@ -204,6 +204,8 @@ pub fn collision_family() -> Vec<Spec> {
         vec![(6, 4)],         // indexed 11
         vec![(16, 0)],        // rotation 1
         vec![(16, 1)],        // rotation 45
+        vec![(16, 3)],        // rotation 180 (the largest angle)
+        vec![(16, 4)],        // rotation 255 (the sentinel "stacked vertical text")
         vec![(15, 0), (16, 0)],
     ]
 }
